@@ -56,6 +56,7 @@ func verifRaceBegin(tag string)
 func verifRaceEnd()
 func verifRaceCheck()
 func verifExplore()
+func verifGo(f func())
 func verifYield()
 func verifJoin()
 func verifMapOrder(on bool)
